@@ -7,6 +7,7 @@ mod mock;
 mod probes;
 
 fn main() {
+	std::panic::set_hook(Box::new(|_| {}));
 	let name = std::env::args().nth(1).unwrap_or_default();
 	let res = match name.as_str() {
 		"error_code_roundtrip" => probes::error_code_roundtrip(),
@@ -14,6 +15,8 @@ fn main() {
 		"client_call_routing" => probes::client_call_routing(),
 		"client_batch_positional" => probes::client_batch_positional(),
 		"response_size_limit" => probes::response_size_limit(),
+		"params_builder_failed_insert" => probes::params_builder_failed_insert(),
+		"params_builder_roundtrip" => probes::params_builder_roundtrip(),
 		_ => json!({"probe": name, "error": "unknown probe"}),
 	};
 	println!("{}", res);
